@@ -256,11 +256,12 @@ where
     }
 
     async fn try_run_fsync_task(&mut self) -> bool {
-        if self.fsync_task.as_ref().map_or(false, |task| !task.is_finished()) {
-            // Task is in progress. Avoid starting second one
+        if self.inner.fsync_in_progress_or_request() {
+            // Sync is in progress. Avoid starting second one: the running one repeats itself
             return false;
         }
 
+        // The previous task (if any) is past its sync
         complete_task(&mut self.fsync_task, "fsync_task").await;
 
 
